@@ -125,6 +125,17 @@ class Model:
         return (e[1], v)
       if w != e[1]: raise IRError("width-changing cast of a Bits value")
       return (w, v)
+    if k == "arg": return env["args"][e[1]]
+    if k == "fcall":
+      # value-returning helper function: {"name", "params": [[pname, width]], "ret": expr}; evaluated inline
+      f = self.func_def(ip, e[1])
+      args = {}
+      for (pn, pw), a in zip(f["params"], e[2]):
+        w, v = self.ev(ip, a, env, st)
+        if w is None: w = pw
+        if w != pw: raise IRError("function argument width")
+        args[pn] = (w, v)
+      return self.ev(ip, f["ret"], {"tmp": {}, "lv": {}, "args": args}, st)
     if k == "tmp": return env["tmp"][e[1]]
     if k == "tmpsl":
       w, v = env["tmp"][e[1]]
@@ -281,10 +292,13 @@ class Model:
       else:
         raise IRError(f"unknown stmt {k}")
 
-  def func_stmts(self, ip, fname):
+  def func_def(self, ip, fname):
     for f in self.classes[self.insts[ip]].get("funcs", []):
-      if f["name"] == fname: return f["stmts"]
+      if f["name"] == fname: return f
     raise IRError(f"unknown function {fname}")
+
+  def func_stmts(self, ip, fname):
+    return self.func_def(ip, fname)["stmts"]
 
   def _written_keys(self, ip, stmts):
     out = set()
@@ -447,6 +461,10 @@ def static_rw(m, ip, stmts):
     elif k in ("zext", "sext", "trunc"): ex(e[1])
     elif k == "red": ex(e[2])
     elif k == "ifexp": ex(e[1]); ex(e[2]); ex(e[3])
+    elif k == "arg": pass
+    elif k == "fcall":
+      for a in e[2]: ex(a)
+      ex(m.func_def(ip, e[1])["ret"])
     elif k == "cast": ex(e[2])
     else: raise IRError(k)
 
